@@ -599,3 +599,49 @@ Proof.
   intros ops. split; [vm_compute; reflexivity|]. split; [|vm_compute; reflexivity].
   apply reachable_run, reach_init.
 Qed.
+
+(* ------------------------------------------------------------------ draining = sorting *)
+Lemma run_gets_length n : forall q, wf q ->
+  length (q_queue (fst (run q (repeat OGet n)))) = (length (q_queue q) - n)%nat.
+Proof.
+  induction n as [|n IH]; intros q Hq.
+  - simpl. lia.
+  - cbn [repeat]. rewrite run_cons. cbn [fst].
+    destruct (step_spec q OGet Hq) as (Hq1 & _).
+    rewrite (IH _ Hq1). unfold step.
+    destruct (get_event q) as [[x q']|] eqn:Hg.
+    + assert (Hne : q_queue q <> []) by (intros C; apply get_event_none in C; congruence).
+      destruct (get_event_some q Hq Hne) as (x1 & q1 & Hg1 & _ & _ & _ & Hp & _).
+      rewrite Hg in Hg1. injection Hg1 as <- <-. apply Permutation_length in Hp. simpl in *. lia.
+    + apply get_event_none in Hg. simpl. rewrite Hg. simpl. lia.
+Qed.
+
+Lemma no_insert_gets n : Forall no_insert (repeat OGet n).
+Proof. induction n; simpl; constructor; simpl; auto. Qed.
+
+Lemma inserted_gets n : inserted (repeat OGet n) = [].
+Proof. induction n; simpl; auto. Qed.
+
+Lemma drain_sorted q : reachable q ->
+  let '(q', rs) := run q (repeat OGet (length (q_queue q))) in
+  q_queue q' = [] /\ Permutation (returned rs) (q_queue q) /\ StronglySorted le_item (returned rs).
+Proof.
+  intros Hr. pose proof (reachable_wf q Hr) as Hq.
+  pose proof (run_gets_length (length (q_queue q)) q Hq) as Hl.
+  destruct (run_spec (repeat OGet (length (q_queue q))) q Hq) as (_ & Hp).
+  destruct (run_noinsert_sorted _ q Hq (no_insert_gets (length (q_queue q)))) as (Hs & _).
+  rewrite inserted_gets in Hp.
+  destruct (run q (repeat OGet (length (q_queue q)))) as [q' rs]. simpl in *.
+  assert (E : q_queue q' = []) by (destruct (q_queue q'); simpl in *; auto; lia).
+  rewrite E in Hp. simpl in Hp. auto.
+Qed.
+
+Lemma item_lt_strict_weak :
+  (forall x, item_lt x x = false) /\
+  (forall x y, item_lt x y = true -> item_lt y x = false) /\
+  (forall x y z, item_lt x y = true -> item_lt y z = true -> item_lt x z = true) /\
+  (forall x y z, item_lt y x = false -> item_lt z y = false -> item_lt z x = false).
+Proof.
+  split; [exact item_lt_irrefl|]. split; [exact item_lt_asym|]. split; [|exact item_nlt_trans].
+  intros x y z. rewrite !item_lt_spec. lia.
+Qed.
